@@ -324,7 +324,7 @@ Qed.
 Lemma P_step T k F L v a : PSt T k F L v -> idle a = true -> (k <> 1 \/ a_now v - T < HOLD_US) -> a_now v - T < TWO32 ->
   PSt T k F L (aact c a v).
 Proof.
-  intros [nw td ou H1 H2 H3] Hi Hk Ht. cbn [a_now] in *. ty. destruct a; try discriminate.
+  intros HP Hi Hk Ht. revert Hk Ht. destruct HP as [nw td ou H1 H2 H3]. intros Hk Ht. cbn [a_now] in *. ty. destruct a; try discriminate.
   - unfold aact. gv. destruct (nw <=? t) eqn:E; [apply Z.leb_le in E; unfold set_now_v; gv; constructor; try assumption; lia|constructor; assumption].
   - destruct (td <=? nw) eqn:E.
     + apply Z.leb_le in E. rewrite ev_tim_pressed by (try assumption; lia). constructor; assumption.
@@ -384,7 +384,8 @@ Proof.
   intros Hk HI Hi Ht H32. ty. pose proof CF as [Cy _ _ _ _ _ _].
   destruct ph.
   - (* no firing yet *)
-    destruct HI as [[nw td ou H1 H2 H3] E]. cbn [a_tdue a_now a_ton] in *. subst td. unfold timely in Ht. cbn in Ht.
+    destruct HI as [HR E]. revert Ht H32 E. destruct HR as [nw td ou H1 H2 H3]. intros Ht H32 E.
+    cbn [a_tdue a_now a_ton] in *. subst td. unfold timely in Ht. cbn [a_tdue a_now a_ton] in Ht.
     destruct a; try discriminate.
     + exists Unfired. unfold aact. gv. destruct (nw <=? t) eqn:E; [apply Z.leb_le in E; unfold set_now_v; gv|];
         (split; [split; [constructor; try assumption; lia|reflexivity]|repeat split; intros; congruence]).
@@ -408,7 +409,8 @@ Proof.
       split; [split; [constructor; congruence|reflexivity]|repeat split; intros; congruence].
     + exists Unfired. unfold aact. gv. split; [split; [constructor; assumption|reflexivity]|repeat split; intros; congruence].
   - (* fired, not yet timed out *)
-    destruct HI as (t0 & [nw td ou H1 H2 H3] & E). cbn [a_tdue a_now a_ton] in *.
+    destruct HI as (t0 & HR & E). revert Ht H32 E. destruct HR as [nw td ou H1 H2 H3]. intros Ht H32 E.
+    cbn [a_tdue a_now a_ton] in *.
     set (F1 := (if M <=? k then xt t0 k else []) ++ F) in *.
     assert (K1 : k1 k < M) by (unfold k1; destruct (M <=? k) eqn:EM; [lia|apply Z.leb_gt in EM; lia]).
     destruct a; try discriminate.
@@ -418,9 +420,9 @@ Proof.
       * apply Z.leb_le in E0. destruct (MULTICLICK_US <=? nw - Tr) eqn:EQ.
         -- (* the time-out *)
            apply Z.leb_le in EQ. exists Final. split; [|repeat split; intros; try congruence; try discriminate; right; cbn; lia].
-           exists nw. unfold k1 in *. destruct (M <=? k) eqn:EM.
-           ++ rewrite ev_tim_final_ovf by (try assumption; lia). constructor; assumption.
-           ++ apply Z.leb_gt in EM. destruct Hk as [-> | Hk].
+           unfold k1 in *. destruct (M <=? k) eqn:EM.
+           ++ exists t0. cbv iota. rewrite ev_tim_final_ovf by (try assumption; lia). constructor; assumption.
+           ++ exists nw. cbv iota. apply Z.leb_gt in EM. destruct Hk as [-> | Hk].
               ** kc. cbv iota. rewrite ev_tim_final_ovf by (try assumption; lia). constructor; assumption.
               ** replace (k =? -1) with false by (symmetry; apply Z.eqb_neq; lia).
                  destruct ((k =? 1) && negb (g =? NOREL)) eqn:EL.
